@@ -1296,8 +1296,152 @@ pub fn run_gc_streams(rec: &mut Recorder, args: &Args) {
 
 pub const RULE: &str = "gc parse: curated + generated (depth<=3, random white space, leading zeros, trailing commas) + mutated policy texts, every one non-trivial; gc run: every value/tombstone pattern of one key up to length 5 (7 thorough) x 16 fixed policies with a follower key, plus random policies (versions/ttl/any/all nesting, now in {0, small, large, u64::MAX}) over 1-4 keys of an 8-key alphabet incl. the empty key, through ReferenceCursor / MergingCursor / real SSTs + lsmtk's GC loop + SstMultiBuilder; non-trivial = >= 2 input entries and (a tombstone present or something dropped); split: 1-4 sorted SSTs -> MergingCursor -> SstMultiBuilder with target/minimum file sizes from 0 to 1MiB and split hints at and inside keys; non-trivial = >= 2 output files; distinct by request text";
 
+/// Tree-level half: every compaction the real selector chooses in single-stepped store histories.
+/// The inputs are read from the state the compaction was chosen in, the outputs from the state
+/// after it (full multi-version dumps of the live SSTs).
+///  * not a garbage collection (output level above the last): the multiset of
+///    (key, timestamp, value | tombstone) entries of the tree is unchanged; the observed output
+///    files are the model's merged input list cut at the observed cut points (`split cut`);
+///  * garbage collection (output level = last level): the retained entries are what the Lean
+///    collector model keeps for the configured `versions = N` policy (`gc run`), and what the
+///    definitional reading of the policy permits; the current value of no key changes.
+pub fn run_tree_streams(rec: &mut Recorder, args: &Args) {
+    use crate::store::*;
+    let (nh, len) = if args.thorough { (160, 110) } else { (40, 70) };
+    for h in 0..nh {
+        if !rec.wants() {
+            // histories produce a variable number of cases; replay of one tree case reruns all
+        }
+        let mut rng = Rng::for_case(args.seed, 105, h);
+        let mut cfg = Cfg::gen(&mut rng);
+        cfg.target_file = *rng.pick(&[128, 256, 4096]);
+        cfg.min_file = 64;
+        let nkeys = if h % 2 == 0 { 5 } else { 9 };
+        // mode 1: flush-heavy with compaction bursts, so that merges and last-level GCs happen
+        let ops = gen_history(&mut rng, len * 3, nkeys, 1);
+        let root = scratch_dir(&format!("c05.{}", h));
+        let Ok(mut sim) = Sim::open(&root, &cfg) else { continue };
+        let mut taint: Option<String> = None;
+        for (step, op) in ops.iter().enumerate() {
+            if let Op::Reopen = op {
+                if taint.is_none() {
+                    if let Ok(d) = sim.dump() {
+                        if crate::c01::d9_trigger(&d) {
+                            taint = Some("reopen-with-key-and-timestamp-overlapping-files".to_string());
+                        }
+                    }
+                }
+            }
+            if let Op::Verify = op {
+                continue;
+            }
+            let r = match guarded(std::panic::AssertUnwindSafe(|| sim.apply(op))) {
+                Ok(r) => r,
+                Err(p) => Err(format!("panic:{}", p)),
+            };
+            if r.is_err() {
+                break;
+            }
+            let chosen = std::mem::take(&mut sim.chosen);
+            if chosen.is_empty() {
+                continue;
+            }
+            // only the last chosen compaction of this op has the current state as its "after"
+            let (before, c) = chosen.last().unwrap();
+            if chosen.len() > 1 || c.inputs.len() < 2 {
+                if c.inputs.len() < 2 {
+                    rec.count("tree.trivial_moves");
+                }
+                continue;
+            }
+            let Ok(after) = sim.dump() else { break };
+            let tag = format!("h{}s{}:{} levels {}->{}", h, step, op.render(), c.lower_level, c.upper_level);
+            let ids: Vec<[u8; 32]> = c.inputs.clone();
+            let files_before: Vec<&FileDump> = before.levels.iter().flat_map(|l| l.iter()).collect();
+            let files_after: Vec<&FileDump> = after.levels.iter().flat_map(|l| l.iter()).collect();
+            let inputs: Vec<&FileDump> = files_before.iter().filter(|f| ids.contains(&f.setsum)).cloned().collect();
+            let kept_ids: Vec<[u8; 32]> = files_before.iter().filter(|f| !ids.contains(&f.setsum)).map(|f| f.setsum).collect();
+            let outputs: Vec<&FileDump> = after.levels[c.upper_level].iter().filter(|f| !kept_ids.contains(&f.setsum) || ids.contains(&f.setsum)).collect();
+            let to_e = |f: &FileDump| -> Vec<E> { f.entries.iter().map(|(k, t, v)| E { key: k.clone(), ts: *t, val: v.clone() }).collect() };
+            let mut all_in: Vec<E> = inputs.iter().flat_map(|f| to_e(f)).collect();
+            all_in.sort_by(cmp_e);
+            let out_tables: Vec<Vec<E>> = outputs.iter().map(|f| to_e(f)).collect();
+            let all_out: Vec<E> = out_tables.iter().flatten().cloned().collect();
+            // whole-tree multisets
+            let mut tree_before: Vec<E> = files_before.iter().flat_map(|f| to_e(f)).collect();
+            let mut tree_after: Vec<E> = files_after.iter().flat_map(|f| to_e(f)).collect();
+            tree_before.sort_by(cmp_e);
+            tree_after.sort_by(cmp_e);
+            let is_gc = c.upper_level == lsmtk::NUM_LEVELS - 1;
+            let mut bad = vec![];
+            let class;
+            let req;
+            let obs;
+            if !is_gc {
+                class = "compaction-changed-the-set-of-versions";
+                if tree_before != tree_after {
+                    bad.push(format!("multiset of entries changed: {} before, {} after", tree_before.len(), tree_after.len()));
+                }
+                for t in &out_tables {
+                    if t.windows(2).any(|w| cmp_e(&w[0], &w[1]) != Ordering::Less) {
+                        bad.push("an output file is not strictly sorted".to_string());
+                    }
+                }
+                // the model's `cut` takes the piece lengths
+                let cuts: Vec<String> = out_tables.iter().map(|t| t.len().to_string()).collect();
+                let in_tables: Vec<Vec<E>> = inputs.iter().map(|f| to_e(f)).collect();
+                req = format!("split cut {} {}", if cuts.is_empty() { "-".to_string() } else { cuts.join(",") }, in_tables.iter().map(|t| tok_table(t)).collect::<Vec<_>>().join(" "));
+                obs = out_tables.iter().fold("files".to_string(), |a, t| a + " " + &tok_table(t));
+                rec.count("tree.merges");
+                if out_tables.len() >= 2 {
+                    rec.count("tree.merges_with_split_output");
+                }
+            } else {
+                class = "gc-dropped-what-policy-does-not-permit";
+                let pol = Pol::V(cfg.gc_versions);
+                let text = format!("versions = {}", cfg.gc_versions);
+                match definitional(&pol, 0, &all_in) {
+                    Ok(keep) => {
+                        let want: Vec<E> = all_in.iter().zip(keep.iter()).filter(|(_, k)| **k).map(|(e, _)| e.clone()).collect();
+                        if want != all_out {
+                            bad.push(format!("retained {} entries, the policy's definitional reading retains {}", all_out.len(), want.len()));
+                        }
+                    }
+                    Err(e) => bad.push(e),
+                }
+                if current_values(&tree_before) != current_values(&tree_after) {
+                    bad.push("the current value of some key changed".to_string());
+                }
+                // nothing outside the compaction's inputs may change
+                let rest_before: Vec<E> = { let mut v: Vec<E> = files_before.iter().filter(|f| !ids.contains(&f.setsum)).flat_map(|f| to_e(f)).collect(); v.sort_by(cmp_e); v };
+                let rest_after: Vec<E> = { let out_ids: Vec<[u8; 32]> = outputs.iter().map(|f| f.setsum).collect(); let mut v: Vec<E> = files_after.iter().filter(|f| !out_ids.contains(&f.setsum)).flat_map(|f| to_e(f)).collect(); v.sort_by(cmp_e); v };
+                if rest_before != rest_after {
+                    bad.push("entries outside the compaction's inputs changed".to_string());
+                }
+                req = format!("gc run {} 0 {}", hex(text.as_bytes()), all_in.iter().map(|e| format!("{}:{}:{}", hex(&e.key), e.ts, if e.val.is_some() { "v" } else { "t" })).collect::<Vec<_>>().join(" "));
+                obs = all_out.iter().fold("kept".to_string(), |a, e| a + " " + &hex(&e.key) + ":" + &e.ts.to_string());
+                rec.count("tree.gcs");
+                if all_out.len() < all_in.len() {
+                    rec.count("tree.gcs_that_dropped_something");
+                }
+            }
+            let v = if bad.is_empty() {
+                match &taint {
+                    Some(c) => Verdict::Taint { class: c.clone() },
+                    None => Verdict::Ok,
+                }
+            } else {
+                Verdict::Fail { class: taint.clone().unwrap_or_else(|| class.to_string()), detail: format!("{} {}", tag, bad.join("; ")) }
+            };
+            rec.case(&req, &obs, v, Some(fnv(req.as_bytes())));
+        }
+        sim.close();
+    }
+}
+
 pub fn run(args: &Args) {
     let mut rec = Recorder::new(&args.out, args.only_case);
     run_gc_streams(&mut rec, args);
-    rec.finish(RULE, &[]);
+    run_tree_streams(&mut rec, args);
+    rec.finish(&format!("{}; tree: every multi-input compaction the real selector chooses in single-stepped flush-heavy store histories — merges: whole-tree multiset of versions unchanged + observed output files = model's merged list cut at the observed points; last-level GCs: retained entries = Lean collector model = definitional reading of versions=N, current values unchanged; every one non-trivial", RULE), &[]);
 }
